@@ -23,6 +23,7 @@ def run(prog, run):
     r6(prog, run)
     r7(prog, run)
     r8(prog, run)
+    r9(prog, run)
 
 
 def r1(prog, run):
@@ -502,3 +503,45 @@ def r8(prog, run):
         run.violation(rid, 'sendFile#no-hash', sf.loc(), 'sendFile(jid, filePath) never stores a hash in the file description')
     else:
         run.ok(rid, sf.loc(), 'the hash is stored in the local file description before the offer is made (%s)' % sorted(seqs))
+
+
+# --------------------------------------------------------------------------- R9: what was received is counted once and for the whole transfer
+def r9(prog, run):
+    from ..effects import field_uses, top_function
+    rid = run.rule('C19.R9', 'the accounting the final verdict rests on - bytes done, the running hash, the expected block number - only moves forward during a transfer: the byte count '
+                             'and the block counter are only incremented, the hash only fed; nothing but the constructor sets them back (a peer that repeats <open/> would otherwise '
+                             'restart size and hash over a file that already holds the earlier blocks)', floor=4)
+    priv = prog.record('QXmppTransferJobPrivate')
+    fields = {}
+    for fl in priv['fields']:
+        q = fl.get('qname') or 'QXmppTransferJobPrivate::' + fl['name']
+        t = fl.get('t') or ''
+        if 'QCryptographicHash' in t:
+            fields[q] = 'hash'
+        elif fl['name'] in ('done', 'ibbSequence') or (t in ('qint64', 'quint16') and fl['name'].lower() in ('done', 'ibbsequence')):
+            fields[q] = 'counter'
+    # identify the counters by use rather than by name: integer members of the private that are incremented (+=, ++) in the transfer code
+    for fl in priv['fields']:
+        q = fl.get('qname') or 'QXmppTransferJobPrivate::' + fl['name']
+        if q in fields or not (fl.get('tc') or '').startswith('int'):
+            continue
+        if any(h.startswith(('assign +=', 'post++', 'pre++', '++')) for f, i, k, h in field_uses(prog, q) if k == 'write'):
+            fields[q] = 'counter'
+    if sum(1 for v in fields.values() if v == 'counter') < 2 or 'hash' not in fields.values():
+        raise AnalysisBroken('C19.R9: byte counter / block counter / running hash of the job not identified (%s)' % fields)
+    n = 0
+    for q, kind in sorted(fields.items()):
+        for f, i, k, h in field_uses(prog, q):
+            if k not in ('write', 'addr') or h == 'constructor initialiser':
+                continue
+            n += 1
+            run.instance(rid)
+            forward = h.startswith(('assign +=', 'post++', 'pre++', '++', 'addData')) or h.split(' ')[0] in ('addData', 'post++', 'pre++')
+            if forward or (kind == 'hash' and 'addData' in h):
+                run.ok(rid, f.loc(i), '%s: %s' % (q.split('::')[-1], h), nontrivial=False)
+            else:
+                run.violation(rid, '%s#accounting-set-back:%s' % (top_function(prog, f).qname, q.split('::')[-1]), f.loc(i),
+                              '%s sets %s back (%s) in the middle of a job\'s life: blocks already written stay in the output, while size and hash verification start over - a '
+                              'transfer that contains extra or repeated data ends with "no error"' % (top_function(prog, f).display()[:50], q.split('::')[-1], h))
+    if n < 4:
+        raise AnalysisBroken('C19.R9: only %d updates of the accounting members found' % n)
